@@ -160,7 +160,8 @@ Fixpoint exec_validate (n : nat) (s : pst) : pst * res :=
       let s1 := st_tick tag_validate s in
       match e_faults E (kctr s) with
       | FOk => exec_validate n' s1
-      | FFail _ => (s1, RRet (RetErr E_PATH))
+      | FFail _ => exec_validate n' s1     (* swallowed: realpath(strict=False) ignores a failing lstat, Path.resolve ignores a
+                                              failing stat unless ELOOP (not injected) -- observed on CPython 3.12 *)
       | FCrash => (s1, RCrash)
       end
   end.
@@ -211,20 +212,30 @@ End Exec.
 
 (* ---- WriteTool.execute before the WRITE FILE block, per mode (hand transcription, pinned below) ------- *)
 Definition read_baseline : stmt := SWith WOpenRead (SOp OReadBaseline).
+Definition cas_guard_existing : stmt := SIf CBase (SIf CBaselineNe (SReturn (RetErr E_HASH)) SSkip) SSkip.
+(* the CONTENT MODE branch up to its CAS guard: baseline for the diff (a failing read is swallowed -> "") *)
+Definition content_baseline : stmt :=
+  SSeq (SIf CFileExisted (STry read_baseline None (Some (SPure PBaselineEmpty))) SSkip)
+       (SIf (CAnd CBase CFileExisted) (SIf CBaselineNe (SReturn (RetErr E_HASH)) SSkip) SSkip).
 Definition pre_execute (m : wmode) : stmt :=
   SSeq SValidate
  (SSeq (SOp OExistsCapture)
  (SSeq (match m with
-        | MContent =>
-            SSeq (SIf CFileExisted (STry read_baseline None (Some (SPure PBaselineEmpty))) SSkip)
-                 (SIf (CAnd CBase CFileExisted) (SIf CBaselineNe (SReturn (RetErr E_HASH)) SSkip) SSkip)
-        | _ =>
+        | MContent => SSeq content_baseline (SPure PPipe)
+        | MChanges =>
             SSeq (SIf (CNot CFileExisted) (SReturn (RetErr E_FILE)) SSkip)
            (SSeq (STry read_baseline None (Some (SReturn (RetErr E_READ))))
-                 (SIf CBase (SIf CBaselineNe (SReturn (RetErr E_HASH)) SSkip) SSkip))
+           (SSeq cas_guard_existing (SPure PPipe)))
+        | MNormalize =>
+            (* `if normalize_mode:` reads the file, guards, sets content := what was read (the text the pipeline
+               will canonicalise: PPipe here), and then control FALLS INTO the content-mode branch (`if changes is
+               not None: .. else: ..`), which reads the file a second time and guards again *)
+            SSeq (SIf (CNot CFileExisted) (SReturn (RetErr E_FILE)) SSkip)
+           (SSeq (STry read_baseline None (Some (SReturn (RetErr E_READ))))
+           (SSeq cas_guard_existing
+           (SSeq (SPure PPipe) content_baseline)))
         end)
- (SSeq (SPure PPipe)
-       (SIf CPipeFail (SReturn (RetErr E_PIPE)) SSkip)))).
+       (SIf CPipeFail (SReturn (RetErr E_PIPE)) SSkip))).
 
 Definition proto_execute (m : wmode) : stmt :=
   SSeq (pre_execute m)
@@ -253,26 +264,45 @@ Definition run (H : str -> str) (E : env) (p : proto_id) (s0 : fs) : pst * outco
 From Coq Require Import Strings.String.
 Lemma pin_pre_sites : wt_pre_sites =
   [ lit "call|self._validate_path(target_path)|none";
+    lit "if|content is not None and changes is not None";
+    lit "endif|content is not None and changes is not None";
     lit "call|path_obj.exists()|none";
-    (* normalize *)
+    (* normalize: its own read + guard, no return on the success path ... *)
+    lit "if|normalize_mode";
     lit "if|not file_exists";
+    lit "endif|not file_exists";
     lit "call|open(target_path, encoding='utf-8')|Exception:return";
     lit "call|f.read()|Exception:return";
     lit "if|base_hash";
     lit "if|current_hash != base_hash";
+    lit "endif|current_hash != base_hash";
+    lit "endif|base_hash";
+    lit "endif|normalize_mode";
     (* changes *)
+    lit "if|changes is not None";
     lit "if|not file_exists";
+    lit "endif|not file_exists";
     lit "call|open(target_path, encoding='utf-8')|Exception:return";
     lit "call|f.read()|Exception:return";
     lit "if|base_hash";
     lit "if|current_hash != base_hash";
-    (* content *)
+    lit "endif|current_hash != base_hash";
+    lit "endif|base_hash";
+    (* ... content, which is the ELSE of `changes is not None`: normalize mode runs it too (second read) *)
+    lit "else|changes is not None";
     lit "if|file_exists";
     lit "call|open(target_path, encoding='utf-8')|Exception:swallow";
     lit "call|f.read()|Exception:swallow";
+    lit "endif|file_exists";
     lit "if|base_hash and file_exists";
     lit "if|current_hash != base_hash";
-    lit "if|not normalize_mode and doc.raw_frontmatter is None and file_exists and baseline_content_for_diff" ].
+    lit "endif|current_hash != base_hash";
+    lit "endif|base_hash and file_exists";
+    lit "if|not normalize_mode and doc.raw_frontmatter is None and file_exists and baseline_content_for_diff";
+    lit "endif|not normalize_mode and doc.raw_frontmatter is None and file_exists and baseline_content_for_diff";
+    lit "endif|changes is not None";
+    lit "if|normalize_mode";
+    lit "endif|normalize_mode" ].
 Proof. vm_compute. reflexivity. Qed.
 
 Lemma pin_dry_guard : wt_dry_guard_before_block = true.
